@@ -124,6 +124,36 @@ let handle op args = match op, args with
           (match to_rasmm vs dims oh oa' v, to_trackvis vs dims oh oa' v with
            | Some t, Some ti -> "ok " ^ string_of_ornt oa' ^ " " ^ string_of_aff t ^ " " ^ string_of_aff ti
            | _, _ -> "err order")))
+  (* lazy <hasdata> <R: 12 rationals | -> <nops> (W | A + 12 rationals)* <npts> (<x> <y> <z>)*
+     -> ok torasmm=<12 rationals | none> streams=<points> items=<points>   | err unknown_space *)
+  | "lazy", hd :: r ->
+    let take12 r = let (l, r2) = take_n_args 12 r in (aff_of l, r2) in
+    let (rr, r) = (match r with "-" :: r2 -> (None, r2) | _ -> let (a, r2) = take12 r in (Some a, r2)) in
+    (match r with
+     | nops :: r ->
+       let rec ops n r = if n = 0 then ([], r) else (match r with
+         | "W" :: r2 -> let (l, r3) = ops (n - 1) r2 in (None :: l, r3)
+         | "A" :: r2 -> let (a, r3) = take12 r2 in let (l, r4) = ops (n - 1) r3 in (Some a :: l, r4)
+         | _ -> failwith "ops") in
+       let (opl, r) = ops (int_of_string nops) r in
+       (match r with
+        | npts :: r ->
+          let rec pts n r = if n = 0 then [] else (match r with
+            | x :: y :: z :: r2 -> ((q_of_string x, q_of_string y), q_of_string z) :: pts (n - 1) r2
+            | _ -> failwith "pts") in
+          let raw = [pts (int_of_string npts) r] in
+          let t0 = if bool_of_string hd then { (lz_of_data_func raw) with lz_to_rasmm = rr } else lz_of_tractogram raw rr in
+          let step acc op = (match acc with None -> None | Some t ->
+            (match op with Some a -> Some (lz_apply_affine a t) | None -> lz_to_world t)) in
+          (match List.fold_left step (Some t0) opl with
+           | None -> "err unknown_space"
+           | Some t ->
+             let spts l = String.concat ";" (List.map (fun ((x, y), z) ->
+               string_of_q (qred x) ^ "," ^ string_of_q (qred y) ^ "," ^ string_of_q (qred z)) (List.concat l)) in
+             "ok torasmm=" ^ (match t.lz_to_rasmm with None -> "none" | Some a -> String.concat "," (String.split_on_char ' ' (string_of_aff (aff_red a)))) ^
+             " streams=" ^ spts (lz_streamlines t) ^ " items=" ^ spts (lz_items t))
+        | _ -> failwith "lazy")
+     | _ -> failwith "lazy")
   | "ornts", [] -> "ok " ^ String.concat " " (List.map string_of_ornt all_ornts)
   | _ -> "err driver:badop"
 let () = run_lines handle
